@@ -10,6 +10,7 @@ messages (C16).
                                  resolveSeq, resolveUID, resolveSeqInterval, resolveUIDInterval,
                                  getWithSeqID, existsWithSeqID, seqRange, uidRange, getWithUID,
                                  getMessagesInSeqRange, getMessagesInUIDRange
+  internal/state/snapshot.go     getMessagesInRange (mode switch + de-duplication, fix 5288904)
   internal/state/mailbox_search.go, snapshot.go
                                  buildSearchOpSeqSet, buildSearchOpUID, SeqInterval.contains,
                                  the loop of Mailbox.Search (for these two keys)
@@ -236,6 +237,25 @@ def getMessagesInUIDRange (s : Snap) (set : List SeqRange) : Except Err (List Se
     let intervals ← resolveUIDInterval s set
     collect (uidOne s) intervals
 
+/-! ### snapshot.getMessagesInRange (internal/state/snapshot.go)
+
+What FETCH, STORE, COPY, MOVE and UID EXPUNGE call: the resolve function for the mode, then (since
+fix 5288904) the loop that keeps the first occurrence of every internal message id — "1,1" or
+"1:3,2" name each message once. -/
+
+/-- `for _, msg := range msgs { if _, ok := seen[id]; ok { continue }; seen[id] = …; unique = append(unique, msg) }` -/
+def uniqueById : List MsgId → List SeqMsg → List SeqMsg
+  | _, [] => []
+  | seen, m :: rest =>
+    if seen.contains m.msg.id then uniqueById seen rest
+    else m :: uniqueById (m.msg.id :: seen) rest
+
+/-- `snapshot.getMessagesInRange` (`uidMode` = `contexts.IsUID(ctx)`) -/
+def getMessagesInRange (uidMode : Bool) (s : Snap) (set : List SeqRange) : Except Err (List SeqMsg) :=
+  match (if uidMode then getMessagesInUIDRange s set else getMessagesInSeqRange s set) with
+  | .error e => .error e
+  | .ok msgs => .ok (uniqueById [] msgs)
+
 /-! ### SEARCH with a message-set key (internal/state/mailbox_search.go, snapshot.go)
 
 `Mailbox.Search` walks over `getWithSeqID(SeqID(i+1))` for `i = 0 … len-1` and keeps the messages the
@@ -355,12 +375,13 @@ inductive Outcome where
   | selected (ms : List SeqMsg)
 deriving DecidableEq, Repr
 
-/-- a whole message-set argument: parse the text, then resolve it against the snapshot. -/
+/-- a whole message-set argument of FETCH / STORE / COPY / MOVE / UID EXPUNGE: parse the text, then
+    `snapshot.getMessagesInRange` against the snapshot. -/
 def selectText (uidMode : Bool) (s : Snap) (text : Input) : Outcome :=
   match parseSeqSet text with
   | none => .bad
   | some (set, _) =>
-    match (if uidMode then getMessagesInUIDRange s set else getMessagesInSeqRange s set) with
+    match getMessagesInRange uidMode s set with
     | .ok ms => .selected ms
     | .error e => .failed e
 
